@@ -9,6 +9,7 @@ import copy
 import itertools
 import random
 
+from .. import cfggen
 from .. import common
 from .. import model as M
 from .. import refcfg
@@ -97,6 +98,10 @@ def eval_case(case: dict) -> dict:
             viol(f'must-accept-rejected:{exc_info["type"]}', **exc_info)
         elif verdict == refcfg.REJECT and not exc_info['is_advshell']:
             cnt['rejected_with_other_diagnosed_error'] = 1
+            if exc_info['class'] != 'LIBRARY':
+                # "rejected with a configuration error": one of the library's own error types
+                viol(f'rejected-with-foreign-error-type:{exc_info["type"]}@{exc_info["where"]}',
+                     reason_kind=reason_kind, **exc_info)
     else:
         cnt['outcome_success'] = 1
         if case['level'] == 'match':
@@ -206,6 +211,16 @@ def gen_cases(tier: str, rng: random.Random):
         cases.append({'provides': prov, 'requires': req, 'injected': inj, 'psel': psel,
                       'rsel': rsel, 'level': 'build' if (i // 2) % 2 else 'match',
                       'related': ['equal', 'mirrored', 'shared-universe'][how]})
+    # configurations that must be accepted, in every spelling the language has (the families
+    # above are dominated by rejections)
+    n_valid = 3000 if tier == 'quick' else 150000
+    for i in range(n_valid):
+        prov, req, inj = rng.choice(shapes)
+        cases.append({'provides': prov, 'requires': req, 'injected': inj,
+                      'psel': cfggen.rand_side(rng, prov, uniform=rng.choice(['STS', 'MTS'])),
+                      'rsel': cfggen.rand_side(rng, req),
+                      'level': 'build' if i % 2 else 'match',
+                      'origin': rng.choice(['create', 'import'])})
     # beyond the small scope: 4-6 names per side
     n_big = 1000 if tier == 'quick' else 100000
     for _ in range(n_big):
@@ -228,6 +243,7 @@ def gen_cases(tier: str, rng: random.Random):
 
 def _worker(chunk):
     agg = {'violations': [], 'counts': {}, 'cases': []}
+    before = dict(shellbuild.STATS)
     for idx, case in enumerate(chunk):
         case = dict(case, shared=idx % 3 != 0)
         res = eval_case(case)
@@ -235,6 +251,9 @@ def _worker(chunk):
             agg['counts'][key] = agg['counts'].get(key, 0) + val
         agg['violations'].extend(res['violations'])
         agg['cases'].append((res['digest'], res['nontrivial']))
+    for key, val in shellbuild.STATS.items():
+        agg['counts'][f'configured_{key}'] = agg['counts'].get(f'configured_{key}', 0) + \
+            val - before.get(key, 0)
     agg['sample'] = chunk[len(chunk) // 2] if chunk else None
     return agg
 
@@ -249,6 +268,10 @@ def main(tier: str) -> int:
                 'side against every component shape, at match and at build level, with the other '
                 f'side fixed to a valid selection; names per side <= {2 if tier == "quick" else 3}'}
     run.require('match_calls', 'builds', 'builds_on_reused_builder_and_model', 'headers_inspected', 'ref_accept', 'ref_reject',
+                'configured_via_preset_all_mts', 'configured_via_preset_all_sts',
+                'configured_via_preset_all_sts_all_mts', 'configured_via_preset_all_mts_all_sts',
+                'configured_via_preset_all_mts_mixed_ts', 'configured_via_preset_all_sts_mixed_ts',
+                'configured_via_constructor',
                 'ref_unspecified')
     chunks = [cases[i:i + 400] for i in range(0, len(cases), 400)]
     for _item, res in run.pmap(_worker, chunks):
